@@ -692,6 +692,68 @@ func docCases(thorough bool, rng *rand.Rand) []docCase {
 }
 
 // ---------------------------------------------------------------------------
+// (d) the real per-segment functions at arbitrary segment numbers (v1.VerifSegmentFns)
+
+type segfnCase struct {
+	Cipher string `json:"cipher"`
+	N      uint32 `json:"N"`
+}
+
+// runSegFn seals a chunk with the REAL segment encryptor at (N, last) and asks the README opener under which of the
+// boundary positions it opens; compares it byte for byte with the README sealing; and has the REAL segment decryptor
+// open the README sealing.  One trace per (cipher, N).
+func runSegFn(b *tv.Batch, cs segfnCase) {
+	b.Start(tv.M{"len": 0, "S": segSize, "tag": tagSize, "cipher": cs.Cipher, "alg": "A256KW", "keyName": "k", "decKeyName": "", "omit": false,
+		"producer": "segfn", "N": int64(cs.N)})
+	fk, np := plaintext(32, int64(cs.N)+5), plaintext(7, int64(cs.N)+6)
+	cph := encref.CipherIDs[cs.Cipher]
+	enc, dec, err := v1.VerifSegmentFns(fk, np, v1.Cipher(cs.Cipher))
+	if err != nil {
+		b.Ev("encfail", tv.M{"stage": "call", "err": err.Error()})
+		b.Ev("end", nil)
+		return
+	}
+	chunk := plaintext(48, int64(cs.N)+7)
+	pos := func(n uint32, last bool) tv.M { return tv.M{"hi": int(n >> 16), "lo": int(n & 0xffff), "last": last} }
+	for _, last := range []bool{false, true} {
+		// real encryptor -> README opener
+		var out bytes.Buffer
+		buf := make([]byte, len(chunk), len(chunk)+64)
+		copy(buf, chunk)
+		opens := []tv.M{}
+		same, plainOK := false, false
+		if err := enc(&out, buf, cs.N, last); err == nil {
+			for _, l2 := range []bool{false, true} {
+				for _, n2 := range encref.BoundaryCounters {
+					if p, err := encref.OpenSegment(cph, fk, np, n2, l2, out.Bytes()); err == nil {
+						opens = append(opens, pos(n2, l2))
+						if n2 == cs.N && l2 == last {
+							plainOK = bytes.Equal(p, chunk)
+						}
+					}
+				}
+			}
+			ref, _ := encref.SealSegment(cph, fk, np, cs.N, last, chunk)
+			same = bytes.Equal(ref, out.Bytes())
+		}
+		m := pos(cs.N, last)
+		m["dir"], m["opens"], m["same"], m["plainOK"] = "enc", opens, same, plainOK
+		b.Ev("segn", m)
+		// README sealing -> real decryptor
+		ref, _ := encref.SealSegment(cph, fk, np, cs.N, last, chunk)
+		var got bytes.Buffer
+		opens = []tv.M{}
+		if err := dec(&got, append(make([]byte, 0, len(ref)+16), ref...), cs.N, last); err == nil {
+			opens = append(opens, pos(cs.N, last))
+		}
+		m = pos(cs.N, last)
+		m["dir"], m["opens"], m["same"], m["plainOK"] = "dec", opens, true, bytes.Equal(got.Bytes(), chunk) || len(opens) == 0
+		b.Ev("segn", m)
+	}
+	b.Ev("end", nil)
+}
+
+// ---------------------------------------------------------------------------
 
 // batches collects traces into several TLC batches of bounded size.
 type batches struct {
@@ -782,7 +844,7 @@ func TestCheck(t *testing.T) {
 
 	// 1. exhaustive model checks (in parallel with the drivers below)
 	var mcWG sync.WaitGroup
-	var mcFraming, mcFormat tlc.Result
+	var mcFraming, mcFormat, mcPosition tlc.Result
 	mcWG.Add(1)
 	go func() {
 		defer mcWG.Done()
@@ -793,6 +855,10 @@ func TestCheck(t *testing.T) {
 		}
 		for _, d := range []string{"MC_format_defect_alias.cfg", "MC_format_defect_omit.cfg"} {
 			mcRun(e, "EncV1Format", d, 3*time.Minute, true)
+		}
+		mcPosition = mcRun(e, "EncPosition", "MC_position.cfg", 3*time.Minute, false)
+		for _, d := range []string{"MC_position_fmt_defect_wrap24.cfg", "MC_position_fmt_defect_last-overlaps.cfg"} {
+			mcRun(e, "EncPosition", d, 3*time.Minute, true)
 		}
 	}()
 
@@ -845,28 +911,51 @@ func TestCheck(t *testing.T) {
 	}
 	fmt.Printf("format/round trip: %d documents, %d decryptions recorded\n", len(dcases), ndec)
 
+	// 3b. the real segment functions at segment numbers over the whole 32-bit range
+	var scases []segfnCase
+	sb := &batches{maxLine: 250000}
+	for _, cph := range []string{"AES-GCM", "CHACHA20-POLY1305"} {
+		for _, n := range encref.BoundaryCounters {
+			scases = append(scases, segfnCase{Cipher: cph, N: n})
+			runSegFn(sb.cur(), scases[len(scases)-1])
+			sb.note(len(scases) - 1)
+			e.Nontrivial(fmt.Sprintf("segfn %v", scases[len(scases)-1]))
+		}
+	}
+
 	mcWG.Wait()
-	e.Set("states", mcFraming.Distinct+mcFormat.Distinct)
-	e.Set("transitions", mcFraming.Generated+mcFormat.Generated)
+	e.Set("states", mcFraming.Distinct+mcFormat.Distinct+mcPosition.Distinct)
+	e.Set("transitions", mcFraming.Generated+mcFormat.Generated+mcPosition.Generated)
 	e.Set("checker_cmd", mcFraming.Cmd+" ; "+mcFormat.Cmd)
 	e.Set("model_checks", tv.M{"EncFraming": tv.M{"distinct": mcFraming.Distinct, "generated": mcFraming.Generated, "depth": mcFraming.Depth},
-		"EncV1Format": tv.M{"distinct": mcFormat.Distinct, "generated": mcFormat.Generated}, "defect_configs_rejected": 5})
+		"EncV1Format": tv.M{"distinct": mcFormat.Distinct, "generated": mcFormat.Generated}, "EncPosition": tv.M{"distinct": mcPosition.Distinct}, "defect_configs_rejected": 7})
 
 	// 4. TLC judges the recorded executions
 	frej, ftr, fl, _, ferr := fb.validate("TraceEncFraming", ev.Pick(6*time.Minute, 40*time.Minute))
 	fmt.Printf("TLC framing trace validation: traces=%d lines=%d rejects=%d %s\n", ftr, fl, len(frej), ferr)
 	drej, dtr, dl, _, derr := db.validate("TraceEncV1Format", ev.Pick(6*time.Minute, 30*time.Minute))
 	fmt.Printf("TLC format trace validation: traces=%d lines=%d rejects=%d %s\n", dtr, dl, len(drej), derr)
+	srej, str, sl, _, serr := sb.validate("TraceEncV1Format", 5*time.Minute)
+	fmt.Printf("TLC segment-number trace validation: traces=%d lines=%d rejects=%d %s\n", str, sl, len(srej), serr)
+	if serr != "" {
+		e.Inconclusive(serr)
+	}
+	for _, r := range srej {
+		cs := scases[r.Case]
+		e.Violation(fmt.Sprintf("format:segment-number:N=%d:%s", cs.N, slug(r.Why)), fmt.Sprintf("segment functions, %s, segment number %d: %s [%s]", cs.Cipher, cs.N, r.Why, r.Trace[r.At]),
+			tv.M{"case": cs, "trace": r.Trace, "at": r.At})
+	}
 	if ferr != "" {
 		e.Inconclusive(ferr)
 	}
 	if derr != "" {
 		e.Inconclusive(derr)
 	}
-	e.Set("evaluations", int64(len(fcases)+len(dcases)+ndec))
-	e.Set("traces_validated_against_impl", int64(ftr+dtr))
+	e.Set("evaluations", int64(len(fcases)+len(dcases)+ndec+4*len(scases)))
+	e.Set("traces_validated_against_impl", int64(ftr+dtr+str))
 	e.Set("rule", "framing case = (S, message length 0..3S+1, composition of the length into read chunks with parts <= S+1, EOF style [alone / with the last data], zero-length read placement, source failure offset alone / with data, consumer buffer size), all compositions enumerated; "+
 		"document case = (producer real/ref/stored, plaintext length around the 64 KiB boundaries, cipher, key-wrap algorithm or alias, DecryptionKeyName/OmitKeyName, wrap pair identity/kit, source reader style, consumer read size) with its list of decryptions (by real/ref, ciphertext reader style incl. every header split point, consumer read size, key-name override); "+
+		"segment-number case = (cipher, N in {0,1,255,256,65535,65536,2^24-1,2^24,2^24+1,2^31,2^32-2,2^32-1}) x last flag x direction (real seal -> README open at all 24 boundary positions + byte equality with the README sealing; README seal -> real open); "+
 		"non-trivial = framing case with more than one segment or a non-default reader behaviour, every document case (each crosses Encrypt, the reference decomposition and at least one Decrypt); distinct by the full case tuple")
 	for _, i := range []int{0, len(fcases) / 2, len(fcases) - 1} {
 		if i >= 0 && i < len(fcases) {
